@@ -530,6 +530,17 @@ func (t *fnTr) stmts(list []ast.Stmt, env *Env, k cont) (string, error) {
 	if len(list) == 0 {
 		return k(env)
 	}
+	if lets, matched, err := t.prevMap(list, env); matched {
+		// ys := make([]T, len(xs)-K); prev := xs[K-1]; for i, x := range xs[K:] { ys[i] = E; prev = x }   (prevloop.go)
+		if err != nil {
+			return "", err
+		}
+		r, err := t.stmts(list[3:], env, k)
+		if err != nil {
+			return "", err
+		}
+		return joinLets(lets, r), nil
+	}
 	s, rest := list[0], list[1:]
 	next := func(e *Env) (string, error) { return t.stmts(rest, e, k) }
 	switch s := s.(type) {
@@ -1562,6 +1573,31 @@ func (t *fnTr) expr(e ast.Expr, env *Env) (val, error) {
 				op = "orb"
 			}
 			return val{fmt.Sprintf("(%s %s %s)", op, x.code, y.code), tBool}, nil
+		}
+		if (e.Op == token.EQL || e.Op == token.NEQ) && x.ty.K == y.ty.K && (x.ty.K == KVec2 || x.ty.K == KVec3 || x.ty.K == KVec4) {
+			// Go's == on vector values (structs of floats): component-wise equality
+			var pr []string
+			switch x.ty.K {
+			case KVec2:
+				pr = []string{"v2x", "v2y"}
+			case KVec3:
+				pr = []string{"v3x", "v3y", "v3z"}
+			default:
+				pr = []string{"v4x", "v4y", "v4z", "v4w"}
+			}
+			code := ""
+			for i, f := range pr {
+				c := fmt.Sprintf("((%s %s) =? (%s %s))", f, x.code, f, y.code)
+				if i == 0 {
+					code = c
+				} else {
+					code = fmt.Sprintf("(andb %s %s)", code, c)
+				}
+			}
+			if e.Op == token.NEQ {
+				code = "(negb " + code + ")"
+			}
+			return val{code, tBool}, nil
 		}
 		if x.ty.K != KFloat || y.ty.K != KFloat {
 			return val{}, t.errf(e, "unsupported operator %s on %s and %s", e.Op, x.ty, y.ty)
